@@ -509,19 +509,51 @@ var helpers = map[string]*helperSpec{
 	// sendraw: raw lines
 	"sendraw": {cmd: "", gen: func(r *rand.Rand) []string {
 		return listArg(r, 3, func(r *rand.Rand) string {
-			switch r.Intn(5) {
-			case 0:
-				return hostileStr(r)
-			case 1:
-				return Pick(r, "PRIVMSG", "NOTICE", "privmsg") + " " + targetArg(r) + " :" + textArg(r)
-			case 2:
-				return "@" + Pick(r, "a=b", "k", "a=b;c=d\\s", "", "a b") + " :" + Pick(r, "n!u@h", "srv", "") + " " + Pick(r, "PRIVMSG", "MODE", "pr\rivmsg") + " " + hostileStr(r)
-			default:
-				return Pick(r, "JOIN", "MODE", "PRIVMSG", "PING", "who", "Q", "001") + " " + hostileStr(r) + Pick(r, "", " :"+hostileStr(r))
-			}
+			return noQuit(genRawLine(r))
 		})
 	},
 		call: func(c *girc.Client, a []string) { _ = c.Cmd.SendRaw(a...) }, count: nil},
+}
+
+// noQuit keeps a raw line from parsing to the QUIT command (sendLoop closes the client
+// after writing a QUIT, which would end the session the suite keeps using) and to a
+// command with non-ASCII bytes (ParseEvent upper-cases it with strings.ToUpper, which the
+// model's go_to_upper reproduces exactly for ASCII only; hostile non-ASCII commands are
+// covered by wire.events, where no upper-casing is involved).
+func noQuit(raw string) string {
+	if rawOutsideModel(raw) {
+		return "NOQUIT " + raw
+	}
+	return raw
+}
+
+func rawOutsideModel(raw string) bool {
+	ev := girc.ParseEvent(raw)
+	if ev == nil {
+		return false
+	}
+	if ev.Command == girc.QUIT {
+		return true
+	}
+	for i := 0; i < len(ev.Command); i++ {
+		if ev.Command[i] >= 0x80 {
+			return true
+		}
+	}
+	return false
+}
+
+func genRawLine(r *rand.Rand) string {
+	switch r.Intn(5) {
+	case 0:
+		return hostileStr(r)
+	case 1:
+		return Pick(r, "PRIVMSG", "NOTICE", "privmsg") + " " + targetArg(r) + " :" + textArg(r)
+	case 2:
+		return "@" + Pick(r, "a=b", "k", "a=b;c=d\\s", "", "a b") + " :" + Pick(r, "n!u@h", "srv", "") + " " + Pick(r, "PRIVMSG", "MODE", "pr\rivmsg") + " " + hostileStr(r)
+	default:
+		return Pick(r, "JOIN", "MODE", "PRIVMSG", "PING", "who", "Q", "001") + " " + hostileStr(r) + Pick(r, "", " :"+hostileStr(r))
+	}
 }
 
 func genReply(r *rand.Rand) []string {
@@ -644,6 +676,13 @@ func runHelperCase(c Case) Result {
 		return Result{Obs: "?bad-case"}
 	}
 	a := rest[:n]
+	if h == "sendraw" { // QUIT would close the client; non-ASCII ToUpper is not modelled
+		for _, raw := range a {
+			if rawOutsideModel(raw) {
+				return Result{Obs: "?bad-case"}
+			}
+		}
+	}
 	if h == "monitor" { // the first argument must be string(rune)
 		if m, _ := utf8.DecodeRuneInString(a[0]); string(m) != a[0] {
 			return Result{Obs: "?bad-case"}
